@@ -16,7 +16,7 @@ import (
 
 // ChoicePoint describes one choice point.
 type ChoicePoint struct {
-	Enabled    []int  // thread ids in canonical order: the running thread first if still enabled, then ascending
+	Enabled    []int  // thread ids in canonical order: the running thread first if still enabled, then its children, siblings, parent, others
 	CurEnabled bool   // the running thread is among the enabled ones (switching away is a preemption)
 	Label      string // what the running thread is about to do
 }
@@ -26,6 +26,7 @@ type Chooser func(p ChoicePoint) int
 
 type thread struct {
 	id      int
+	parent  int // id of the goroutine that started this one (-1 for the driver)
 	wake    chan struct{}
 	blocked func() bool // nil when runnable; otherwise runnable once it returns true
 	done    bool
@@ -66,7 +67,7 @@ func Active() bool { return active }
 func Run(main func(), choose Chooser, syncGranularity bool, maxPoints int) Result {
 	st := &state{choose: choose, finished: make(chan struct{}), syncGran: syncGranularity, maxPts: maxPoints}
 	s, active = st, true
-	t := &thread{id: 0, wake: make(chan struct{}, 1)}
+	t := &thread{id: 0, parent: -1, wake: make(chan struct{}, 1)}
 	st.threads = append(st.threads, t)
 	st.cur = t
 	go st.body(t, main)
@@ -108,7 +109,7 @@ func Go(f func()) {
 		return
 	}
 	st := s
-	t := &thread{id: len(st.threads), wake: make(chan struct{}, 1)}
+	t := &thread{id: len(st.threads), parent: st.cur.id, wake: make(chan struct{}, 1)}
 	st.threads = append(st.threads, t)
 	go st.body(t, f)
 	if st.syncGran {
@@ -156,12 +157,29 @@ func (st *state) schedule(label string) {
 	if curEnabled {
 		enabled = append(enabled, cur)
 	}
-	for _, t := range st.threads {
-		if t == cur || t.done {
-			continue
+	// Canonical order of the alternatives (the first one is the default choice): the running
+	// goroutine if it can continue; otherwise goroutines of the same logical task first - children of
+	// the running goroutine, then its siblings, then its parent - and then everything else, each group
+	// by ascending id. A lookup and the tile fetches it spawns thus run to completion by default.
+	rank := func(t *thread) int {
+		switch {
+		case t.parent == cur.id:
+			return 0
+		case t.parent == cur.parent && cur.parent >= 0:
+			return 1
+		case t.id == cur.parent:
+			return 2
 		}
-		if t.blocked == nil || t.blocked() {
-			enabled = append(enabled, t)
+		return 3
+	}
+	for r := 0; r <= 3; r++ {
+		for _, t := range st.threads {
+			if t == cur || t.done || rank(t) != r {
+				continue
+			}
+			if t.blocked == nil || t.blocked() {
+				enabled = append(enabled, t)
+			}
 		}
 	}
 	if len(enabled) == 0 {
